@@ -412,8 +412,20 @@ S(id="RG.tail", props=["C10", "C14"], spec="rgtail.spec.c", harness="h_rg_tail",
   what="NO_RULES only when no rule was read; `$S : error $eof' is added iff no rule of the start symbol begins with `error'; the grammar is checked while still marked undefined, "
        "the code vector is built after the check, and undefined_p is cleared as the last action",
   assumes=["R6: the region is cut from yaep_read_grammar on every run", "debug output of the region is not modelled (printers replaced by empty contracts)"])
+S(id="RG.rule", props=["C10", "C12"], spec="rgrule.spec.c", harness="h_rg_rule", mode="B", dfcc=True, loops=True, n_loops=2, canaries=4, object_bits=10, enforce=["verif_rg_rule/rg_rule_c"],
+  replace=["verif_error_exit/err_rule_c", "symb_find_by_repr/find_repr2_c", "symb_find_by_code/find_code2_c", "symb_add_nonterm/add_nonterm2_c", "symb_add_term/add_term2_c",
+           "rule_new_start/rns_c", "rule_new_symb_add/rnsa_c", "rule_new_stop/rnstop_c"],
+  bound="a rule has <= 8 right-hand side names and <= 8 translation numbers (facts about all entries of the two arrays are written out entry by entry); "
+        "both loops of the body are closed by loop contracts, nothing is unwound",
+  functions=["yaep_read_grammar (body of the rule-intake loop, rule R7)"],
+  what="for ONE delivered rule, from any state of the definition: every error exit names a defect really present in what was delivered (left-hand side found as terminal; reserved symbol "
+       "found for the name just looked up; >= 2 translated symbols without abstract node; negative cost with abstract node; a translation number out of range and not `-'; "
+       "a position named twice); on normal end none of these is present, and the rule record has the delivered length, cost, abstract node, order[] (order[p] == index of the entry "
+       "naming p) and exactly as many translation children as entries that name a position or are `-' under an abstract node; the first rule makes $S, $eof and `$S : <start> $eof' -> 0",
+  assumes=["A7: symb_find_by_repr answers NULL or a symbol of the table (arbitrary which); negative codes are never in the table (RG.prefix adds only codes >= 0)",
+           "R7: the loop body is cut from yaep_read_grammar on every run; the loop header and the four statements before it (error symbol) are not covered by this set",
+           "rule_new_start as proved by T.copy.rule, rule_new_symb_add / rule_new_stop by T.rule.add / T.rule.stop (restated without the storage)"])
 S(id="T.copy.rule", props=["C13", "C12"], spec="symtab.spec.c", harness="h_rule_start", mode="L", canaries=2, enforce=["rule_new_start/rule_start_c"],
-  replace=["_OS_add_string_function/os_add_string_use_c", "_OS_expand_memory/os_expand_use_c"], functions=["rule_new_start"], params={"quick": {"CAP": 16}, "thorough": {"CAP": 64}}, mem=48, timeout=1500,
-  disabled="work in progress",
+  replace=["_OS_add_string_function/os_add_string_use_c", "_OS_expand_memory/os_expand_use_c"], functions=["rule_new_start"], params={"quick": {"CAP": 8}, "thorough": {"CAP": 32}}, mem=48, timeout=1500,
   what="the rule record is linked into the rule list and its left-hand side's list; the abstract node name is a COPY inside the grammar's rule storage (different object, equal bytes), "
        "its cost is stored (0 without abstract node); the right-hand side starts as an open array holding the NULL end marker")
